@@ -132,6 +132,10 @@ def floors(tier):
         "oracle.nowiki.parse-top": 1500, "oracle.nowiki.parse-ctx": 1500,
         "oracle.comment.expand": 3000, "oracle.comment.parse": 3000,
         "sets.mapchars": 15, "sets.xctx": len(XCTX), "sets.pctx": len(PCTX), "sets.comment-features": 10,
+        "oracle.nowiki.history": 3000, "counters.history.parse-expand-first.level60": 300,
+        "counters.history.parse-expand-first.level90": 300, "counters.history.level.90": 8, "counters.history.table-at-least-85-percent-full": 8,
+        "counters.history.first-check-after-fill.parse-expand-first.table-over-half": 8,
+        "counters.history.first-check-after-fill.expand.table-over-half": 4, "counters.history.style.piecewise": 4,
         "sets.adjctx": len(ADJ), "oracle.nowiki.parse-adj": 5000, "counters.class.near-closer": 300, "counters.class.blank": 100,
         "counters.exhaustive.single": 15, "counters.exhaustive.pair": 225,
         "counters.comment.removed": 3000, "counters.class.placeholder": 1,
@@ -285,6 +289,7 @@ class Monitor:
         self.adjbase = {}
         self.triage_cpu = 0.0
         self.triage_cap = 90.0
+        self.keep_page = False   # True: cases continue on the current page (no start_page): part H
         self.kindN = 0
         self._orig_magic = None
 
@@ -299,7 +304,8 @@ class Monitor:
     def x(self, text, **kw):
         """expand under guard -> ('ok', str) | ('raises', sig) | ('no-return', '')"""
         ctx = self.ctx
-        ctx.start_page("Pg")
+        if not self.keep_page:
+            ctx.start_page("Pg")
         self.calls = []
         try:
             with cpu_guard(2 if R.PLACEHOLDER_RE.search(text) else 10):
@@ -313,7 +319,8 @@ class Monitor:
 
     def p(self, text, mode):
         ctx = self.ctx
-        ctx.start_page("Pg")
+        if not self.keep_page:
+            ctx.start_page("Pg")
         self.calls = []
         try:
             with cpu_guard(2 if R.PLACEHOLDER_RE.search(text) else 10):
@@ -878,7 +885,7 @@ def run_nowiki(mon, obs, rng, c, cls, budget, exh=None):
         if cheap is None:
             budget[0] -= 1
             sig, mcase = mon.nowiki_sig(case, prob)
-            q = mon_replay_msg(mon, mcase) or prob[1]
+            q = prob[1] if prob[0] == "no-return" else (mon_replay_msg(mon, mcase) or prob[1])
             obs.violation(sig, q, dict(mcase, part="nowiki", oc=list(mcase.get("oc", (0, 0)))))
         else:
             # over the minimisation budget and recognised (one extra run) as a class that is already recorded
@@ -954,6 +961,117 @@ def run_comment(mon, obs, rng, budget):
         break  # parse would fail for the same reason
 
 
+# part H schedule: every shard runs the two well-filled levels in one piece plus one more (level, style) by shard index
+HISTORY_EXTRA = [(0, "single"), (40, "piecewise"), (75, "single"), (60, "piecewise")]
+
+
+def fill_page(mon, rng, percent, style):
+    """One start_page(), then expansion of a long page (distinct links, external links, argument references, nowikis:
+    one magic cookie each) until the context's cookie table is `percent` % full; style "single" = one expand() call,
+    "piecewise" = many calls of 500-5000 constructs (an extractor walking a big page).  -> cookies in use"""
+    from wikitextprocessor.common import MAX_MAGICS
+    ctx = mon.ctx
+    ctx.start_page("Pg")
+    target = MAX_MAGICS * percent // 100
+    serial = 0
+    forms = ("[[h%d|t]]", "[[H%d]]", "[http://h.example/%d x]", "{{{a%d}}}", "<nowiki>n%d</nowiki>", "[[h%d#s|u]]")
+    while len(ctx.cookies) < target:
+        n = target - len(ctx.cookies)
+        if style == "piecewise":
+            n = min(n, rng.randint(500, 5000))
+        text = " ".join(forms[(serial + i) % len(forms)] % (serial + i) for i in range(n))
+        serial += n
+        before = len(ctx.cookies)
+        with cpu_guard(60):
+            ctx.expand(text)
+        if len(ctx.cookies) <= before:
+            break   # the table does not grow (any more): go on with what is there
+    return len(ctx.cookies)
+
+
+def run_history(mon, obs, rng, per_level, idx):
+    """Part H: the nowiki clauses on a page with a long history -- the same checks, but on a context whose cookie table is
+    0 / 40 / 60 / 75 / 90 % full and WITHOUT a new start_page() between the cases (an extractor that processes a big page
+    piecewise).  Which check comes first after the fill rotates with the shard index.  A failure that disappears after
+    start_page() is reported as history-dependent."""
+    from wikitextprocessor.common import MAX_MAGICS
+    schedule = [(60, "single"), (90, "single"), HISTORY_EXTRA[idx % len(HISTORY_EXTRA)]]
+    for fno, (level, style) in enumerate(schedule):
+        try:
+            used = fill_page(mon, rng, level, style)
+        except CpuBudget:
+            obs.count("history.fill.no-return")
+            continue
+        obs.count("history.level.%d" % level)
+        obs.count("history.style." + style)
+        obs.maxi("history.cookies-in-use-percent", 100 * used // MAX_MAGICS)
+        if 100 * used // MAX_MAGICS >= 85:
+            obs.count("history.table-at-least-85-percent-full")
+        mon.keep_page = True
+        first = True
+        try:
+            for j in range(per_level):
+                c, cls = gen_content(rng, mon.soup)
+                if cls == "placeholder" or c == "":
+                    continue
+                oc = (rng.randrange(len(OPENERS)), rng.randrange(len(CLOSERS)))
+                plan = [{"check": "parse-top", "mode": 1}, {"check": "expand", "ctx": "top"}, {"check": "parse-top", "mode": 2},
+                        {"check": "parse-ctx", "ctx": rng.choice([x[0] for x in PCTX]), "mode": rng.choice((1, 2))},
+                        {"check": "expand", "ctx": rng.choice(("targ", "named", "link-text", "cell", "noexp", "unexp"))},
+                        {"check": "parse-adj", "ctx": rng.choice([x[0] for x in ADJ]), "mode": rng.choice((1, 2)), "suffix": rng.choice(ADJ_SUFFIX)},
+                        {"check": "parse-top", "mode": 0},
+                        {"check": "parse-ctx", "ctx": rng.choice([x[0] for x in PCTX]), "mode": rng.randrange(3)}]
+                r = (idx + fno + j) % len(plan)
+                plan = plan[r:] + plan[:r]
+                stop = False
+                for pl in plan:
+                    case = dict(pl, c=c, oc=list(oc))
+                    if first:
+                        first = False
+                        kind = "parse-expand-first" if pl["check"] != "expand" and pl["mode"] != 0 else \
+                            ("expand" if pl["check"] == "expand" else "parse-plain")
+                        obs.count("history.first-check-after-fill.%s%s" % (kind, ".table-over-half" if 2 * used > MAX_MAGICS else ""))
+                    prob = mon.nowiki_eval(case)
+                    obs.check("nowiki.history")
+                    obs.count("history.cases.level%d" % level)
+                    if pl["check"] != "expand" and pl["mode"] != 0:
+                        obs.count("history.parse-expand-first.level%d" % level)
+                    obs.case("H|%d|%s|%s|%s|%r" % (level, pl["check"], pl.get("ctx"), pl.get("mode"), c),
+                             nontrivial=any(ch in R.MAP for ch in c),
+                             sample={"part": "history", "level": level, "case": {k: (v[:200] if isinstance(v, str) else v) for k, v in case.items()}})
+                    if prob is None:
+                        continue
+                    obs.count("history.failures")
+                    in_use = len(mon.ctx.cookies)
+                    # the same case on a new page of the same context
+                    mon.keep_page = False
+                    saved = mon.obs
+                    mon.obs = Obs()
+                    try:
+                        again = mon.nowiki_eval(case)
+                    finally:
+                        mon.obs = saved
+                    if again is None:
+                        tag = ""
+                        if pl["check"] != "expand" and pl["mode"] != 0:
+                            tag = "/parse-mode=expand-first"
+                        obs.violation("nowiki/page-history-dependent(long page without start_page; passes on a new page)/%s%s"
+                                      % (prob[0].split(":")[0], tag),
+                                      "after a page history that filled the cookie table to %d %% (%s), %d cookies in use now: %s"
+                                      % (100 * used // MAX_MAGICS, style, in_use, prob[1]),
+                                      dict(case, part="history", level=level, style=style))
+                    else:
+                        # not a matter of history: the ordinary classification (same as part N)
+                        sig, mcase = mon.nowiki_sig(case, again)
+                        obs.violation(sig, again[1], dict(mcase, part="nowiki", oc=list(mcase.get("oc", (0, 0)))))
+                    stop = True   # start_page() has dropped the history of this level
+                    break
+                if stop:
+                    break
+        finally:
+            mon.keep_page = False
+
+
 def run_shard(spec):
     obs = Obs()
     rng = random.Random(spec["seed"])
@@ -976,6 +1094,7 @@ def run_shard(spec):
         else:
             for _ in range(4):
                 run_comment(mon, obs, rng, kb)
+    run_history(mon, obs, rng, 14 if spec.get("tier", "quick") == "quick" else 300, spec["idx"])
     mon.close()
     obs.maxi("triage-cpu-seconds", round(mon.triage_cpu, 1))
     obs.anchors.update(anchors.snapshot())
@@ -993,6 +1112,21 @@ def replay(case):
                 sig, m = mon.comment_sig(case)
                 out.append((sig, msg))
             res = {"violations": out, "status": st, "stripped": R.strip_comments(case["text"])[0]}
+        elif case.get("part") == "history":
+            # rebuild the page history (cookie table filled to the recorded level, same style), then the case as the
+            # first check on that page, then once more on a new page
+            used = fill_page(mon, random.Random(0), case["level"], case.get("style", "single"))
+            mon.keep_page = True
+            prob = mon.nowiki_eval(case)
+            mon.keep_page = False
+            again = mon.nowiki_eval(case)
+            if prob is not None and again is None:
+                tag = "/parse-mode=expand-first" if case["check"] != "expand" and case["mode"] != 0 else ""
+                out.append(("nowiki/page-history-dependent(long page without start_page; passes on a new page)/%s%s"
+                            % (prob[0].split(":")[0], tag), prob[1]))
+            elif again is not None:
+                out.append((mon.nowiki_sig(case, again)[0], again[1]))
+            res = {"violations": out, "cookies_after_fill": used}
         else:
             prob = mon.nowiki_eval(case)
             if prob is not None:
